@@ -7,7 +7,9 @@ GEN = ["hashutil", "uri"]
 RULE = ("cases: ordered pairs (a, b) drawn from pools of real objects: capability objects of all 18 classes plus "
         "UnknownURI, and nodes of every class NodeMaker builds (ImmutableFileNode, LiteralFileNode, MutableFileNode over "
         "SSK/SSK-RO/MDMF/MDMF-RO, DirectoryNode over the six wrappable kinds, CiphertextFileNode, UnknownNode); every pool "
-        "holds, for each cap, a separately constructed equal twin and a neighbour differing in one field, and every "
+        "holds, for each cap, a separately constructed equal twin and a neighbour differing in one field, for mutable "
+        "caps also RELATED caps (the derived read-only cap, the same keys in the other format, the same key with another "
+        "fingerprint: same storage index, different string), and every "
         "ordered pair of the pool (also a with itself, also across classes) is compared: a == b, a != b, hash(a) == hash(b). "
         "distinct non-trivial = distinct ordered pairs (class and capability strings)")
 META = {
@@ -115,7 +117,7 @@ def cap_pool(r):
 
 def caps(ctx):
     ctx.correspondence("cap-identity-vs-model")
-    n = ctx.n(3, 60)
+    n = ctx.n(3, 24)
     preamble, terms, info = [], [], []
     for rnd in range(n):
         r = ctx.rng("caps", rnd)
@@ -166,10 +168,21 @@ def node_pool(r, nm):
             cap = U.make_cap(kind, f, is_dir)
             node = build_node(nm, cap)
             pool.append((node, cap))
-        if r.random() < 0.5 and kind in ("SSK", "MDMF"):
-            # the read-only node of the same file / directory: a different capability string
-            cap = U.make_cap(kind, fields, is_dir).get_readonly()
-            pool.append((build_node(nm, cap), cap))
+        if kind in ("SSK", "MDMF"):
+            # RELATED caps: different capability strings for the same slot (same storage index) --
+            # the read-only cap derived from the write cap, the same keys in the other format, the
+            # same write key with another fingerprint
+            related = [U.make_cap(kind, fields, is_dir).get_readonly(),
+                       U.make_cap("MDMF" if kind == "SSK" else "SSK", fields, is_dir),
+                       U.make_cap(kind, (fields[0], vary(r, kind, fields[1:])[0]), is_dir)]
+            r.shuffle(related)
+            for cap in related[:2]:
+                pool.append((build_node(nm, cap), cap))
+        if kind in ("SSKRO", "MDMFRO"):
+            related = [U.make_cap("MDMFRO" if kind == "SSKRO" else "SSKRO", fields, is_dir),
+                       U.make_cap(kind, (fields[0], vary(r, kind, fields[1:])[0]), is_dir)]
+            pool.append((build_node(nm, r.choice(related)), None))
+            pool[-1] = (pool[-1][0], pool[-1][0].get_cap())
     for rw, ro in [(None, b"ro.lafs://future"), (None, b"ro.lafs://future"), (b"lafs://rw", b"lafs://ro"), (b"lafs://rw", b"lafs://other-ro"),
                    (None, None), (b"lafs://rw", None)][:r.choice([3, 4])]:
         pool.append((UnknownNode(rw, ro), None))
@@ -196,7 +209,7 @@ def nodes(ctx):
     from allmydata.nodemaker import NodeMaker
     ctx.correspondence("node-identity-vs-model")
     nm = NodeMaker(None, None, None, None, None, {"k": 3, "n": 10}, None, None)
-    n = ctx.n(3, 40)
+    n = ctx.n(3, 20)
     preamble, terms, info = [], [], []
     seen_classes = set()
     for rnd in range(n):
